@@ -316,9 +316,9 @@ def enum_values(prefix, header_rel=None):
     h = hashlib.sha256((src + hdr).encode()).hexdigest()[:16]
     exe = os.path.join(WORK, 'enum_%s' % h)
     if not os.path.exists(exe):
-        c = exe + '.c'
+        c = exe + '.%d.c' % os.getpid()
         open(c, 'w').write(src)
-        _run([CLANG, '-Wno-everything'] + INCLUDES + [c, '-o', exe + '.tmp'])
-        os.replace(exe + '.tmp', exe)
+        _run([CLANG, '-Wno-everything'] + INCLUDES + [c, '-o', exe + '.tmp%d' % os.getpid()])
+        os.replace(exe + '.tmp%d' % os.getpid(), exe)
     out = _run([exe])
     return {l.split()[0]: int(l.split()[1]) for l in out.splitlines()}
